@@ -73,7 +73,8 @@ class Soap12(Soap11):
         return value, faultstrings
 
     def generate_faultcode(self, element):
-        nsmap = element.nsmap
+        # not element.nsmap: the peer is free to choose its prefixes
+        nsmap = {'soap': self.ns_soap_env}
         faultcode = []
         faultcode.append(element.find('soap:Code/soap:Value', namespaces=nsmap).text)
         subcode = element.find('soap:Code/soap:Subcode', namespaces=nsmap)
@@ -143,7 +144,8 @@ class Soap12(Soap11):
         return self.fault_to_parent(ctx, cls, inst, parent, ns)
 
     def fault_from_element(self, ctx, cls, element):
-        nsmap = element.nsmap
+        # not element.nsmap: the peer is free to choose its prefixes
+        nsmap = {'soap': self.ns_soap_env}
 
         code = self.generate_faultcode(element)
         reason = element.find("soap:Reason/soap:Text", namespaces=nsmap).text.strip()
